@@ -124,3 +124,56 @@ macro_rules! proof_router_leaf {
         pub fn $name() $body
     };
 }
+
+/// Capacity is a performance hint, never semantics: `Vec::with_capacity(n)` /
+/// `VecDeque::with_capacity(n)` are replaced by small-capacity equivalents so that CBMC does
+/// not have to model 4 KB / 16 KB heap arrays (the real constructors ask for 1024 entries per
+/// log segment and 100 events per client).  Growth then goes through the real `reserve` /
+/// `grow` code.  Not usable where the code asserts on `capacity()` (rumqttd Outgoing::new).
+pub mod capstub {
+    use std::collections::VecDeque;
+    pub fn vec_with_capacity<T>(capacity: usize) -> Vec<T> {
+        let mut v = Vec::new();
+        v.reserve_exact(if capacity < 4 { capacity } else { 4 });
+        v
+    }
+    /// `Vec::reserve(additional)` with a SYMBOLIC `additional` drags a symbolic-size realloc +
+    /// memcpy into the formula even when the capacity always suffices (CBMC: out of memory in
+    /// array post-processing).  Harness-provided output vectors are pre-sized, so growth through
+    /// `reserve` is turned into an assertion that it is never needed.
+    pub fn vec_reserve_no_growth<T, A: std::alloc::Allocator>(v: &mut Vec<T, A>, additional: usize) {
+        if v.capacity() == 0 {
+            // first allocation of an empty Vec (concrete sizes in practice): real code path
+            v.reserve_exact(additional);
+            return;
+        }
+        assert!(v.capacity() - v.len() >= additional, "harness: pre-sized Vec would have to grow in reserve()");
+    }
+    /// `VecDeque::grow` (private, called by push_back when full): queues in the harnesses are far
+    /// from full (100 / 200 slots), but when the LENGTH is symbolic CBMC has to carry the whole
+    /// symbolic-size reallocation.  Reaching it becomes a failed assertion instead.
+    pub fn vecdeque_never_grows<T, A: std::alloc::Allocator>(_v: &mut VecDeque<T, A>) {
+        panic!("harness: VecDeque would have to grow");
+    }
+    pub fn vecdeque_with_capacity<T>(capacity: usize) -> VecDeque<T> {
+        let mut v = VecDeque::new();
+        v.reserve_exact(if capacity < 4 { capacity } else { 4 });
+        v
+    }
+}
+
+/// harness for the commit log: tracing off + small capacities
+#[macro_export]
+macro_rules! proof_c13 {
+    ($unwind:literal, $name:ident, $body:block) => {
+        #[kani::proof]
+        #[kani::unwind($unwind)]
+        #[kani::stub(tracing::callsite::DefaultCallsite::interest, crate::util::tstub::never)]
+        #[kani::stub(tracing::__macro_support::__is_enabled, crate::util::tstub::not_enabled)]
+        #[kani::stub(tracing::Event::dispatch, crate::util::tstub::no_dispatch)]
+        #[kani::stub(std::vec::Vec::with_capacity, crate::util::capstub::vec_with_capacity)]
+        #[kani::stub(std::vec::Vec::reserve, crate::util::capstub::vec_reserve_no_growth)]
+        #[kani::stub(std::collections::VecDeque::grow, crate::util::capstub::vecdeque_never_grows)]
+        pub fn $name() $body
+    };
+}
